@@ -5,24 +5,28 @@
 //! Oracle: an abstract set of lexical quads plus a set of named-graph names (`model.rs`),
 //! filtered by linear scan. Nothing of the engine is used to compute an expected value.
 //!
-//! Phases:
+//! Phases (random runs first with at most 40 % of the workload cap, then exh):
 //!   exh     exhaustive histories over 2 terms x {Default, g1, g2}: one case = the first two
 //!           operations, the remaining one (quick) / two (thorough) enumerated inside; the
 //!           complete read sweep runs after every operation.
 //!   random  histories of 200..2000 operations over up to 6 terms x 4 graphs, biased to the
 //!           dangerous interleavings, through the index API, the database wrappers or both.
+//!
+//! A failing history is localised (complete sweep after every operation), minimised
+//! (ddmin, wrappers -> primitives, clear/drop -> single deletes) and reported with a
+//! signature that names the failing read and the smallest operation after which it fails.
 
 mod checks;
 mod model;
 mod sut;
 
 use checks::{check_state, Failure, Obs, Plan};
-use kvcore::{guard, hash_str, json, panic_site, Ctx, Rng, Spec, Value};
+use kvcore::{guard, hash_str, json, panic_site, Ctx, Rng, Spec};
 use model::{Model, Op, Universe, Via, AQ};
-use std::collections::{BTreeSet, HashSet};
+use std::collections::HashSet;
 use sut::Sut;
 
-const RULE: &str = "phase exh: ALL operation sequences of length <=3 (quick) / <=4 (thorough) over the 59 operations {insert_quad, delete_quad} x 24 quads (2 terms, graphs Default/g1/g2) + {create_graph, clear_graph, drop_graph} x 3 graphs + build_all_indexes + clear, complete read sweep after every operation; phase random: seeded histories of 200-2000 operations over 2-6 terms x 1-3 named graphs (+ one never-written term and one never-created graph) through DatasetIndex, the SparqlDatabase wrappers, or both, with a targeted read check after every operation and a complete sweep every 8-64 operations. Non-trivial = the history contains at least one operation that changed the abstract quad set or graph catalog and at least one read with a non-empty expected answer; distinct by hash of the operation sequence.";
+const RULE: &str = "phase exh: ALL operation sequences of length <=3 (quick) / <=4 (thorough) over the 59 operations {insert_quad, delete_quad} x 24 quads (2 terms, graphs Default/g1/g2) + {create_graph, clear_graph, drop_graph} x 3 graphs + build_all_indexes + clear, complete read sweep after every operation; phase random: seeded histories of 200-2000 operations over 2-6 terms x 1-3 named graphs (+ one never-written term and one never-created graph) through DatasetIndex, the SparqlDatabase wrappers, or both, with a targeted read check after every operation and a complete sweep every 8-64 operations. Non-trivial = the history contains at least one operation that changed the abstract quad set or graph catalog (so reads with a non-empty expected answer were compared; random phase: this is checked explicitly); distinct by hash of the operation sequence.";
 
 /// what happened when a history was executed against a fresh store
 struct Outcome {
@@ -103,8 +107,9 @@ fn still_fails(u: &Universe, ops: &[Op], pre: bool, enc_seed: u64, f: &Failure, 
 /// (clear/drop/wrappers) by the primitive ones when the failure survives: the last
 /// operation of the result is the smallest operation that still exhibits the failure.
 fn shrink(u: &Universe, mut ops: Vec<Op>, pre: bool, enc_seed: u64, f: &Failure, obs: &mut Obs) -> Vec<Op> {
+    let mut f = f.clone();
     let mut budget = 1500usize; // number of re-executions allowed
-    for _round in 0..2 {
+    for _round in 0..3 {
         let mut chunk = (ops.len() / 2).max(1);
         loop {
             let mut i = 0;
@@ -117,7 +122,7 @@ fn shrink(u: &Universe, mut ops: Vec<Op>, pre: bool, enc_seed: u64, f: &Failure,
                     i = end;
                     continue;
                 }
-                match still_fails(u, &cand, pre, enc_seed, f, obs) {
+                match still_fails(u, &cand, pre, enc_seed, &f, obs) {
                     Some(c) => ops = c,
                     None => i = end,
                 }
@@ -127,15 +132,18 @@ fn shrink(u: &Universe, mut ops: Vec<Op>, pre: bool, enc_seed: u64, f: &Failure,
             }
             chunk = (chunk / 2).max(1);
         }
-        // all operations through the plain index API?
+        let mut changed = false;
+        // every operation through the plain index API: when that history fails as well, the
+        // wrappers are not needed for the defect and the primitive failure is the one reported
         let plain: Vec<Op> = ops.iter().map(|o| o.with_via(Via::Index)).collect();
         if plain != ops {
-            if let Some(c) = still_fails(u, &plain, pre, enc_seed, f, obs) {
-                ops = c;
+            if let Some(o) = run_history(u, &plain, pre, enc_seed, Policy::FullEvery, obs) {
+                ops = plain[..=o.at].to_vec();
+                f = o.failure;
+                changed = true;
             }
         }
         // compound last operation -> primitive
-        let mut changed = false;
         if let Some((&last, prefix)) = ops.split_last() {
             let mut m = Model::default();
             for o in prefix {
@@ -159,7 +167,7 @@ fn shrink(u: &Universe, mut ops: Vec<Op>, pre: bool, enc_seed: u64, f: &Failure,
             for c in cands {
                 let mut h = prefix.to_vec();
                 h.push(c);
-                if let Some(t) = still_fails(u, &h, pre, enc_seed, f, obs) {
+                if let Some(t) = still_fails(u, &h, pre, enc_seed, &f, obs) {
                     ops = t;
                     changed = true;
                     break;
@@ -284,7 +292,6 @@ fn phase_exh(ctx: &mut Ctx, rep: &mut Reporter, obs: &mut Obs) {
         let mut model = Model::default();
         let mut hist: Vec<Op> = vec![];
         let mut failed: Option<Outcome> = None;
-        let mut nonempty_reads_before = obs.nonempty_total();
         // prefix a, b
         for (i, oi) in [a, b].into_iter().enumerate() {
             hist.push(ops[oi]);
@@ -298,7 +305,6 @@ fn phase_exh(ctx: &mut Ctx, rep: &mut Reporter, obs: &mut Obs) {
         }
         ctx.count("exh.histories_len2", 1);
         if failed.is_none() {
-            let base_changed = model.changes > 0;
             'outer: for c in 0..ops.len() {
                 let mut s3 = sut.fork();
                 let mut m3 = model.clone();
@@ -325,10 +331,9 @@ fn phase_exh(ctx: &mut Ctx, rep: &mut Reporter, obs: &mut Obs) {
                         }
                     }
                     hist.truncate(3);
-                } else if m3.changes > 0 && (base_changed || obs.nonempty_total() > nonempty_reads_before) {
+                } else if m3.changes > 0 {
                     ctx.nontrivial(hist_hash(&hist));
                 }
-                nonempty_reads_before = obs.nonempty_total();
                 if ctx.wants_sample() && c == 7 && m3.changes >= 2 {
                     ctx.sample(json!({"history": hist.iter().map(|o| o.show(&u)).collect::<Vec<_>>(), "quads_after": m3.quads.len(), "named_graphs_after": m3.named.len(), "note": "one of the histories enumerated inside this case"}));
                 }
@@ -532,7 +537,14 @@ fn gen_op(r: &mut Rng, u: &Universe, m: &Model, g: &mut Gen, vias: &[Via]) -> Op
 fn phase_random(ctx: &mut Ctx, rep: &mut Reporter, obs: &mut Obs) {
     let total = ctx.by_tier(720u64, 24_000u64);
     ctx.phase("random", total);
-    while let Some(k) = ctx.next_case() {
+    loop {
+        // the random phase runs first and may use at most 40 % of the workload cap, the
+        // rest belongs to the exhaustive phase (matters for the thorough tier only)
+        if !ctx.within(0.4) {
+            ctx.count("random.stopped_at_its_share_of_the_workload_cap", 1);
+            break;
+        }
+        let Some(k) = ctx.next_case() else { break };
         let mut r = ctx.rng(k);
         let (nt, nn) = if r.chance(1, 2) { (6, 3) } else { (r.range(2, 6) as u8, r.range(1, 3) as u8) };
         let u = Universe::new(nt, nn);
@@ -599,15 +611,12 @@ fn phase_random(ctx: &mut Ctx, rep: &mut Reporter, obs: &mut Obs) {
 fn run(ctx: &mut Ctx) {
     let mut obs = Obs::default();
     let mut rep = Reporter { shrunk: HashSet::new() };
-    phase_exh(ctx, &mut rep, &mut obs);
     phase_random(ctx, &mut rep, &mut obs);
+    phase_exh(ctx, &mut rep, &mut obs);
     obs.flush(ctx);
-    let _: BTreeSet<u8> = BTreeSet::new();
-    let _: Option<Value> = None;
 }
 
 fn main() {
-    let thorough = std::env::args().any(|a| a == "thorough") || (std::env::var("VERIF_TIER").ok().as_deref() == Some("thorough") && !std::env::args().any(|a| a == "quick"));
     let mut spec = Spec::new("C04", "exploration", RULE);
     spec.assumptions = &[
         "terms and graph names are plain strings of the M-TERM domain (no <>, quotes or << >>), so encode_term_star and Dictionary::encode coincide; one term is lexically equal to a graph name on purpose",
@@ -623,6 +632,5 @@ fn main() {
     // length-4 space is enumerated as far as the cap allows and the runtime clears the flag
     // when a shard stops early
     spec.exhaustive = true;
-    let _ = thorough;
     kvcore::run(spec, run);
 }
